@@ -188,6 +188,8 @@ func runC13(c *Ctx) {
 		}
 	}
 
+	ruleResultOnEveryExit(c) // "never deadlocks": the command loop blocks on the delivery result
+
 	R.Rule("R-status-nonblocking", "E1", "SetStatus and fillRemaining send only inside non-blocking selects on the recipient's channel; misuse panics instead of blocking the backend", 4)
 	if f := c.A.Func("(*statusCollector).SetStatus"); f != nil {
 		nSel, nSend := 0, 0
